@@ -250,54 +250,85 @@ Fixpoint depth_after (d : nat) (l : string) : nat :=
 
 Definition nl : string := String (ascii_of_nat 10) EmptyString.
 
+(* the last character of a physical line that is neither white space nor part of a comment *)
+Fixpoint last_code_char (prev : option ascii) (l : string) : option ascii :=
+  match l with
+  | EmptyString => prev
+  | String c r =>
+      if (code c =? hash)%N then prev
+      else if is_space c then last_code_char prev r
+      else last_code_char (Some c) r
+  end.
+
+(* the line ends where an expression cannot end: behind + - * / = , or an opening parenthesis (the parser has no use for a
+   NEWLINE token there, so the line feed is white space and the statement goes on) *)
+Definition ends_open (l : string) : bool :=
+  match last_code_char None l with
+  | Some c => ((code c =? 43) || (code c =? 45) || (code c =? 42) || (code c =? 47) || (code c =? 61) || (code c =? 44)
+               || (code c =? 40))%N
+  | None => false
+  end.
+
+Definition blank (l : string) : bool := match skip_space l with EmptyString => true | _ => false end.
+
+(* the state behind a physical line: parenthesis depth, and whether the statement is open for the other reason *)
+Definition depth_next (d : nat) (l : string) : nat := depth_after d l.
+Definition open_next (op : bool) (l : string) : bool := if blank l then op else ends_open l.
+Definition closes (d : nat) (op : bool) (l : string) : bool := Nat.eqb (depth_next d l) 0 && negb (open_next op l).
+
 (* join physical lines into logical ones: acc is the part of the current logical line read so far *)
-Fixpoint logical (d : nat) (acc : string) (ls : list string) : list string :=
+Fixpoint logical (d : nat) (op : bool) (acc : string) (ls : list string) : list string :=
   match ls with
   | [] => match acc with EmptyString => [] | _ => [acc] end
   | l :: r =>
-      let d' := depth_after d l in
-      if Nat.eqb d' 0 then (acc ++ l) :: logical 0 EmptyString r
-      else logical d' (acc ++ l ++ nl) r
+      if closes d op l then (acc ++ l) :: logical 0 false EmptyString r
+      else logical (depth_next d l) (open_next op l) (acc ++ l ++ nl) r
   end.
 
-Definition balanced (l : string) : Prop := depth_after 0 l = 0.
+Definition balanced (l : string) : Prop := depth_after 0 l = 0 /\ ends_open l = false.
 
-(* one assignment per physical line: nothing is joined *)
-Theorem logical_of_balanced_lines ls : Forall balanced ls -> logical 0 EmptyString ls = ls.
+Lemma balanced_closes l : balanced l -> closes 0 false l = true.
 Proof.
-  induction 1 as [|l r Hl _ IH]; cbn [logical]; [reflexivity|].
-  unfold balanced in Hl. rewrite Hl. cbn [Nat.eqb append]. rewrite IH. reflexivity.
+  intros [Hd Ho]. unfold closes, depth_next, open_next. rewrite Hd. cbn [Nat.eqb andb].
+  destruct (blank l); [reflexivity|]. rewrite Ho. reflexivity.
 Qed.
 
-(* a statement broken inside parentheses: while the depth behind each piece stays positive the pieces are collected, the
-   piece that closes the last parenthesis ends the logical line, and what follows is read on its own *)
-Fixpoint pieces_open (d : nat) (ps : list string) : Prop :=
+(* one assignment per physical line: nothing is joined *)
+Theorem logical_of_balanced_lines ls : Forall balanced ls -> logical 0 false EmptyString ls = ls.
+Proof.
+  induction 1 as [|l r Hl _ IH]; cbn [logical]; [reflexivity|].
+  rewrite (balanced_closes l Hl). cbn [append]. rewrite IH. reflexivity.
+Qed.
+
+(* a statement broken inside parentheses or behind an operator: while no piece closes it the pieces are collected, the
+   piece that closes it ends the logical line, and what follows is read on its own *)
+Fixpoint pieces_open (d : nat) (op : bool) (ps : list string) : Prop :=
   match ps with
   | [] => True
-  | p :: r => depth_after d p <> 0 /\ pieces_open (depth_after d p) r
+  | p :: r => closes d op p = false /\ pieces_open (depth_next d p) (open_next op p) r
   end.
-Fixpoint depth_pieces (d : nat) (ps : list string) : nat :=
-  match ps with [] => d | p :: r => depth_pieces (depth_after d p) r end.
+Fixpoint state_after (d : nat) (op : bool) (ps : list string) : nat * bool :=
+  match ps with [] => (d, op) | p :: r => state_after (depth_next d p) (open_next op p) r end.
 Fixpoint glue (ps : list string) : string :=
   match ps with [] => EmptyString | p :: r => p ++ nl ++ glue r end.
 
 Lemma append_assoc3 a b c : (a ++ b) ++ c = a ++ (b ++ c).
 Proof. induction a as [|x a IH]; cbn [append]; [reflexivity|rewrite IH; reflexivity]. Qed.
 
-Theorem logical_joins_broken_statement ps : forall d acc last rest,
-  pieces_open d ps -> depth_after (depth_pieces d ps) last = 0 ->
-  logical d acc (ps ++ last :: rest) = (acc ++ glue ps ++ last) :: logical 0 EmptyString rest.
+Theorem logical_joins_broken_statement ps : forall d op acc last rest,
+  pieces_open d op ps -> closes (fst (state_after d op ps)) (snd (state_after d op ps)) last = true ->
+  logical d op acc (ps ++ last :: rest) = (acc ++ glue ps ++ last) :: logical 0 false EmptyString rest.
 Proof.
-  induction ps as [|p r IH]; intros d acc last rest Ho Hc; cbn [List.app logical pieces_open depth_pieces glue] in *.
+  induction ps as [|p r IH]; intros d op acc last rest Ho Hc; cbn [List.app logical pieces_open state_after glue fst snd] in *.
   - rewrite Hc. reflexivity.
-  - destruct Ho as [Hp Hr]. destruct (depth_after d p) as [|k] eqn:E; [congruence|]. cbn [Nat.eqb].
-    rewrite (IH (S k) (acc ++ p ++ nl) last rest Hr Hc).
+  - destruct Ho as [Hp Hr]. rewrite Hp.
+    rewrite (IH (depth_next d p) (open_next op p) (acc ++ p ++ nl) last rest Hr Hc).
     rewrite !append_assoc3. reflexivity.
 Qed.
 
 (* the body of a block given as physical lines: logical lines first, then one assignment per logical line *)
 Definition parse_body (ls : list string) : option (list (string * expr * option string)) :=
-  parse_block (logical 0 EmptyString ls).
+  parse_block (logical 0 false EmptyString ls).
 
 Corollary parse_body_of_balanced_lines ls : Forall balanced ls -> parse_body ls = parse_block ls.
 Proof. intros H. unfold parse_body. rewrite (logical_of_balanced_lines ls H). reflexivity. Qed.
@@ -321,7 +352,8 @@ Proof. vm_compute. reflexivity. Qed.
 Example body_example :
   parse_body ["i_K = g_K*("; "    V"; "    - E_K)  # uA/cm**2 (at 37 C"; "# done )"; "dV_dt = -i_K"]
   = Some [("i_K", EMul (EVar "g_K") (ESub (EVar "V") (EVar "E_K")), Some " uA/cm**2 (at 37 C"); ("dV_dt", ENeg (EVar "i_K"), None)]
-  /\ logical 0 "" ["a = (b"; "+ c)"; "d = 1"] = [String.append "a = (b" (String.append nl "+ c)"); "d = 1"]
+  /\ logical 0 false "" ["a = (b"; "+ c)"; "d = 1"] = [String.append "a = (b" (String.append nl "+ c)"); "d = 1"]
+  /\ parse_body ["w ="; "   a +"; ""; "   b  # sum"; "x = -"; "w"] = Some [("w", EAdd (EVar "a") (EVar "b"), Some " sum"); ("x", ENeg (EVar "w"), None)]
   (* a comment in the middle of a broken statement is not part of the language: the grammar has comments behind expressions only *)
   /\ parse_body ["i_K = g_K*("; "    V   # the potential"; "    - E_K)"] = None.
 Proof. vm_compute. repeat split; reflexivity. Qed.
